@@ -1,7 +1,7 @@
 """Property -> job sets, attribution rules, bounds."""
 
-CODEC_FAMS_Q = ['scalar', 'list', 'map', 'default', 'nocopy', 'unknown', 'ids', 'nest']
-CODEC_FAMS_T = CODEC_FAMS_Q
+CODEC_FAMS_Q = ['scalar', 'list', 'map', 'default', 'nocopy', 'unknown', 'ids', 'nest', 'threshold']
+CODEC_FAMS_T = ['scalar', 'list', 'map', 'default', 'nocopy', 'unknown', 'ids', 'nest', 'threshold_full']
 
 JOBSETS = {
     'codec': {
@@ -27,7 +27,25 @@ JOBSETS['decmsg'] = {
     'wall': {'quick': 1500, 'thorough': 7200},
 }
 
+RPKG = 'github.com/cloudwego/frugal/internal/reflect'
+JOBSETS['unit'] = {
+    'jobs': {t: [
+        {'id': 'unit/span-lemma', 'entry': RPKG + '.VerifSpanLemma', 'reach': ['kept', 'fresh'], 'cfg': {'sym_alloc': True}, 'tags': ['unit', 'C06']},
+        {'id': 'unit/decoder-malloc', 'entry': RPKG + '.VerifDecoderMalloc', 'reach': ['typed', 'large', 'small'], 'cfg': {'sym_alloc': True}, 'tags': ['unit', 'C06']},
+    ] for t in ('quick', 'thorough')},
+    'cfg': {'quick': {'timeout_s': 300, 'solver_timeout_ms': 30000}, 'thorough': {'timeout_s': 1800, 'solver_timeout_ms': 120000}},
+    'wall': {'quick': 900, 'thorough': 3600},
+}
+
+JOBSETS['dec2'] = {
+    'gen': {'families': {'quick': ['dec2'], 'thorough': ['dec2']}, 'bounds': {'quick': '1,1,1,2', 'thorough': '2,2,2,2'}},
+    'kinds': ['dec2'],
+    'cfg': {'quick': {'timeout_s': 300, 'solver_timeout_ms': 10000}, 'thorough': {'timeout_s': 3000, 'solver_timeout_ms': 60000}},
+    'wall': {'quick': 1500, 'thorough': 7200},
+}
+
 PROPS = {
+    'C06': {'jobsets': ['unit', 'dec2', 'decmsg', 'codec'], 'phases': [], 'job_filter': r'unit/(span|decoder)|^decmsg/|^dec2/|^codec/', 'also_labels': r'^M-(scan|align)'},
     'C01': {'jobsets': ['codec'], 'phases': ['decode']},
     'C02': {'jobsets': ['codec'], 'phases': []},
     'C03': {'jobsets': ['decmsg', 'bytes'], 'phases': ['decode'], 'job_filter': r'^(decmsg|bytes)/'},
@@ -65,18 +83,47 @@ MANIFEST_TEXT = {
             'ref': 'DESIGN.md s7 C16', 'note': _CODEC_NOTE, 'technique': 'SSA-level symbolic execution + SMT (z3), frozen-memory monitor'},
 }
 
+MANIFEST_TEXT.update({
+    'C03': {'level': 'Bounded symbolic execution of the real DecodeObject on (a) structured foreign messages: a symbolic value of a writer schema W is encoded by the '
+                     'reference encoder in several field orders with trailing bytes and decoded into a fresh or fully pre-filled destination of a related reader type T '
+                     '(fields added / removed / retyped / renumbered, unknown fields of every wire type nested in known containers); (b) every byte string up to N bytes. '
+                     'n and the decoded value are compared with an independent reference decoder for all values.',
+            'ref': 'DESIGN.md s7 C03', 'note': _CODEC_NOTE + ' Message shapes: strings/lists/maps <= 1 element quick (2 thorough); arbitrary inputs N <= 8 bytes quick (12 thorough). Regions the property leaves open (duplicate field ids, BOOL bytes other than 0/1, duplicate map keys, prior contents of by-value struct fields) are not asserted.',
+            'technique': 'SSA-level symbolic execution + SMT (z3), differential against reference decoder'},
+    'C05': {'level': 'Every byte of the input is a solver variable: for every byte string of length 0..N and each destination type, on every path DecodeObject must not panic / '
+                     'fault / read outside the input (Go panics and the memory-model bounds monitor are violations), must succeed exactly when the independent reference '
+                     'decoder finds a well-formed message, with work (executed SSA instructions) and requested memory bounded linearly in N.',
+            'ref': 'DESIGN.md s7 C05', 'note': _CODEC_NOTE + ' N <= 8 quick, N <= 12 thorough, 6 destination types; longer inputs and the unbounded-length header arithmetic (H_hdr) are outside the claim. The dependency gopkg/thrift skipper is executed from source.',
+            'technique': 'SSA-level symbolic execution over fully symbolic input bytes + SMT (z3)'},
+    'C06': {'level': '(1) Inductive step of the real bump allocator span.Malloc from an arbitrary valid pre-state (frontier p, request n up to 4 MiB as solver variables, align 1/2/4/8): '
+                     'alignment, containment, disjointness from earlier allocations and the invariant are decided by z3 for all values; the same for tDecoder.Malloc dispatch. '
+                     '(2) In every decode harness an ownership walk over the decoded object checks, per pointer/slice/string: aligned, owned by this decode, typed for GC when it holds '
+                     'pointers, inside its allocation, disjoint from all other pieces and from the input. (3) Histories: decode, overwrite the input, decode again with the same pooled '
+                     'decoder; first object unchanged, all memory disjoint; uninitialised allocator memory is modelled as fresh symbolic bytes.',
+            'ref': 'DESIGN.md s7 C06', 'note': _CODEC_NOTE + ' The Go allocator/GC is not executed: GC-safety is argued from scan-class + ownership facts. Block base addresses are 16-byte aligned in the model (real mallocgc guarantees 8 for these sizes; align <= 8).',
+            'technique': 'SMT-decided inductive lemma over real SSA + symbolic execution with a byte-addressed memory model'},
+    'C09': {'level': 'Reader types with required fields at ids on both sides of presence-set word boundaries (0,1,63,64,65,127 / 128,255,256,32767,32768,65534), nested in list/map/struct, '
+                     'receive messages in which any subset is omitted or has the wrong wire type: failure with INVALID_DATA naming the first missing field exactly when the reference finds one missing; '
+                     'also all byte strings <= N for a type with required id 300. Encode side: required fields are written for all values (byte equality with the reference).',
+            'ref': 'DESIGN.md s7 C09', 'note': _CODEC_NOTE + ' The bitset lemma with fully arbitrary pooled contents (1024 symbolic words) exceeds the solver budget with this encoding and is not claimed; dirty-bitset histories are covered by C07 harnesses only.',
+            'technique': 'SSA-level symbolic execution + SMT (z3), differential against reference decoder/encoder'},
+    'C10': {'level': 'Types with default initialisers: the omission decision of EncodedSize/EncodeObject for optional fields equal to / different from the declared default is decided for all values '
+                     '(incl. -0.0/NaN via fp.eq, empty vs nil binary) by byte equality with the reference; nested structs created by the decoder (pointer field, list element, map value, by value and by pointer) '
+                     'must equal "defaults then message" while the top-level destination keeps its prior contents.',
+            'ref': 'DESIGN.md s7 C10', 'note': _CODEC_NOTE, 'technique': 'SSA-level symbolic execution + SMT (z3) incl. floating-point equality'},
+    'C11': {'level': 'Holder and holder-less reader types against newer writer schemas: holder contents must be the byte-exact concatenation, in message order, of that struct\'s unrecognised fields '
+                     '(computed by the reference decoder); EncodedSize/EncodeObject re-emit them; second hop: decode by T, re-encode, decode by the reference under W yields the original value.',
+            'ref': 'DESIGN.md s7 C11', 'note': _CODEC_NOTE, 'technique': 'SSA-level symbolic execution + SMT (z3), two-hop differential'},
+    'C14': {'level': 'nocopy string/binary fields (plain, optional pointer, nested, in list elements) mixed with ordinary ones: after decode every nocopy value must be a view inside the input buffer with cap == len, '
+                     'zero-length values must not reference the buffer, and no other pointer of the decoded graph may overlap the buffer; contents are compared with the reference decoder.',
+            'ref': 'DESIGN.md s7 C14', 'note': _CODEC_NOTE, 'technique': 'SSA-level symbolic execution with address-level aliasing checks'},
+})
+
 NOT_APPLICABLE = {
-    'C03': 'not built yet (planned: H_dec_WT, DESIGN.md s7 C03)',
-    'C05': 'not built yet (planned: H_bytes, DESIGN.md s7 C05)',
-    'C06': 'not built yet (planned: allocator lemma + ownership walk)',
     'C07': 'not built yet (planned: dirty pools / call histories)',
     'C08': 'not built yet (planned: bounded interleavings of the descriptor cache)',
-    'C09': 'not built yet (planned: bitset lemma + required fields)',
-    'C10': 'not built yet (planned: defaults family)',
-    'C11': 'not built yet (planned: unknown-field holder)',
     'C12': 'not built yet (planned: spellings + symbolic parser text)',
     'C13': 'not built yet (planned: invalid definitions)',
-    'C14': 'not built yet (planned: nocopy aliasing)',
     'C15': 'not built yet (planned: depth induction)',
     'C17': 'not built yet (planned: legacy controls)',
     'C18': 'Allocation behaviour is decided by the gc compiler\'s escape analysis/inlining and runtime internals that do not exist at the go/ssa level this technique encodes; measuring MemStats would be a different technique (DESIGN.md s7 C18).',
